@@ -24,6 +24,11 @@ func validateMethods(lookup *method.Index[generatedMethod]) error {
 		for _, entry := range lookup.Exact[sig] {
 			genMethod := entry.Item
 
+			if genMethod.Explicit && genMethod.EnumMapping != nil && (len(genMethod.EnumMapping.Map) > 0 || len(genMethod.EnumMapping.Transformers) > 0) {
+				if !genMethod.Source.Enum(&genMethod.Enum).OK || !genMethod.Target.Enum(&genMethod.Enum).OK {
+					return fmt.Errorf("Invalid enum mapping on method:\n    %s\n    %s\n\ngoverter:enum:map and goverter:enum:transform may only be set on methods converting an enum to an enum.\nSee https://goverter.jmattheis.de/guide/enum", genMethod.Location, genMethod.ID)
+				}
+			}
 			if genMethod.Explicit && len(genMethod.RawFieldSettings) > 0 {
 				isTargetStructPointer := genMethod.Target.Pointer && genMethod.Parameters.Target.PointerInner.Struct
 				if !genMethod.Target.Struct && !isTargetStructPointer {
